@@ -1,5 +1,13 @@
 """C01 cases: add / sub / neg / abs family."""
 from .common import *
+from . import prim as _prim
+
+# the trusted leaf layer (Lean Prim.*) is validated against rustc's primitives in the same run
+HARNESS_BINS = ["c01", "prim"]
+
+
+def ROUTE(line):
+    return _prim.route(line, "c01")
 
 U_BIN = ["overflowing_add", "overflowing_sub", "checked_add", "checked_sub", "wrapping_add", "wrapping_sub",
          "saturating_add", "saturating_sub", "overflowing_add_signed", "checked_add_signed",
@@ -15,7 +23,7 @@ I_UN = ["overflowing_neg", "overflowing_abs", "checked_neg", "checked_abs", "wra
 CARRY = ["carrying_add", "borrowing_sub"]
 
 
-def gen(rng, tier):
+def _gen_main(rng, tier):
     reps = 200 if tier == "thorough" else 25
     for cfg in cfgs(tier):
         w, n = wn(cfg)
@@ -46,3 +54,8 @@ def gen(rng, tier):
                             yield f"{op} {s}8x1 dbg {hx(a)} {hx(b)}", "exhaustive8"
                         else:
                             yield f"{op} {s}8x1 {hx(a)} {hx(b)}", "exhaustive8"
+
+
+def gen(rng, tier):
+    yield from _gen_main(rng, tier)
+    yield from _prim.arith(rng, tier)
